@@ -127,6 +127,11 @@ def run_check(chk, tier, replay=None):
     chk.props = PROPS.get(chk.pid, chk.props)
     obl = B.props_status(chk.props) if chk.props else []
     broken = [o for o in obl if not o["ok"]]
+    chk_summary = None
+    if tier == "thorough" and chk.props and binfo["coq_ok"]:
+        okc, chk_summary = B.coqchk_props(chk.props)
+        if not okc:
+            broken.append({"file": ",".join(chk.props), "theorem": "(coqchk)", "assumptions": chk_summary, "ok": False})
     if not binfo["coq_ok"]:
         for f in binfo["broken_files"]:
             broken.append({"file": f, "theorem": "(does not compile)", "assumptions": "", "ok": False})
@@ -244,6 +249,7 @@ def run_check(chk, tier, replay=None):
                                "inconclusive": inconclusive, "unsupported_by_model_oracles": unsupported,
                                "oracle_violations": len(failing)},
             "generated_v_changed": binfo["generated_changed"], "build_s": binfo.get("build_s"),
+            "coqchk": chk_summary,
         },
         "assumptions": ["fuel: every theorem about the evaluator excludes the OutOfFuel outcome explicitly",
                         "library oracles (regexp fragment, encoding/json, strconv, strings, sort, slice growth) are validated against Go by differential tests, not proved equal to Go"],
